@@ -157,6 +157,29 @@ def h_blob(ctx, kind, length, off):
     ctx.check("decode reads exactly the slice", d2["f"] == ctx.oracle(a[off:off + length * k]))
 
 
+def h_layout_sequence(ctx, n):
+    """layouts come and go (their list objects are freed and their ids reused): each one is coded by its own mask"""
+    import gc
+    masks = [(0xFF, 0), (0x0FF0, 1), (0x7FFFFF, 0), (0x01, 2), (0x3FFC, 0), (0xFFFFFFFF, 1), (0x1FFFE0, 1), (0x80, 3),
+             (0xFFFFFFFFFFFFFFFF, 0), (0x03C0, 2)]
+    for k in range(n):
+        mask, off = masks[k % len(masks)]
+        lo = (mask & -mask).bit_length() - 1
+        w = bin(mask).count("1")
+        v = ctx.int("v%d" % k, w)
+        lay = {"f": [mask, off]}
+        buf = ctx.zeros("z%d" % k, 12)
+        cv.encode_dict({"f": v}, lay, buf)
+        span = _span(mask)
+        ctx.check("layout %d (mask %#x): field holds the value" % (k, mask),
+                  _big(buf) == ctx.oracle((v << lo) << (8 * (12 - off - span))))
+        d = {}
+        cv.decode_bits(buf, lay, d)
+        ctx.check("layout %d (mask %#x): decode(encode(v)) == v" % (k, mask), d["f"] == ctx.oracle(v))
+        del lay, d
+        gc.collect()
+
+
 def h_tables(ctx):
     """side obligation: every [mask, offset] entry of every layout table in the repo is a
     non-zero contiguous mask (decode_bits does not terminate on mask 0; masks with holes are
@@ -206,6 +229,7 @@ def obligations(tier):
             obs.append(Ob("blob/%s/len=%d" % (kind, length), MOD, "h_blob", {"kind": kind, "length": length, "off": 2},
                           canary=length > 0))
     obs.append(Ob("layout-tables", MOD, "h_tables", {}, canary=False))
+    obs.append(Ob("layout-sequence", MOD, "h_layout_sequence", {"n": 20}))
     return obs
 
 
